@@ -126,17 +126,18 @@ func lexGohtStart(l *lexer) lexFn {
 	if strings.HasPrefix(l.current(), "(") {
 		// we've only captured the receiver, so we need to capture the rest of the function signature
 		l.next()
-		for {
-			l.acceptUntil(")")
-			// handle the situation where the function signature contains an `interface{}` type with one or more methods
-			openParens := strings.Count(l.current(), "(")
-			closeParens := strings.Count(l.current(), ")")
-			if openParens == closeParens+1 {
-				break
-			}
-			if l.next() == scanner.EOF {
-				return l.errorf("template declaration is incomplete: eof")
-			}
+	}
+	for {
+		l.acceptUntil(")")
+		// handle the situation where the function signature contains parentheses of its own:
+		// an `interface{}` type with one or more methods, a func type, a parenthesised result list
+		openParens := strings.Count(l.current(), "(")
+		closeParens := strings.Count(l.current(), ")")
+		if openParens == closeParens+1 {
+			break
+		}
+		if l.next() == scanner.EOF {
+			return l.errorf("template declaration is incomplete: eof")
 		}
 	}
 	l.next()
